@@ -695,4 +695,54 @@ theorem bounds_ok (as ae : Int) (elems : Fib Int π) (hs : Sorted elems) (hact :
 
 end bounds
 
+section last
+variable (S : List Int) (pre : Int)
+
+/-- among the boundaries whose pre-halo start is `≤ c` there is a last one -/
+theorem last_boundary (c : Int) (h0 : ∃ (i : Nat) (s : Int), S[i]? = some s ∧ s - pre ≤ c) :
+    ∃ (i : Nat) (s : Int), S[i]? = some s ∧ s - pre ≤ c ∧ ∀ t, S[i + 1]? = some t → c < t - pre := by
+  have key : ∀ (n : Nat), n ≤ S.length → (∃ i s, i < n ∧ S[i]? = some s ∧ s - pre ≤ c) →
+      ∃ i s, i < n ∧ S[i]? = some s ∧ s - pre ≤ c ∧
+        ∀ t, S[i + 1]? = some t → i + 1 < n → c < t - pre := by
+    intro n
+    induction n with
+    | zero => rintro _ ⟨i, s, hi, _⟩; omega
+    | succ n ih =>
+      intro hn hex
+      have hnlt : n < S.length := by omega
+      by_cases hlast : S[n] - pre ≤ c
+      · refine ⟨n, S[n], Nat.lt_succ_self n, List.getElem?_eq_getElem hnlt, hlast, ?_⟩
+        intro t _ h; omega
+      · have hex' : ∃ i s, i < n ∧ S[i]? = some s ∧ s - pre ≤ c := by
+          obtain ⟨i, s, hi, hs, hc⟩ := hex
+          refine ⟨i, s, ?_, hs, hc⟩
+          rcases Nat.lt_or_ge i n with h | h
+          · exact h
+          · have : i = n := by omega
+            subst this
+            rw [List.getElem?_eq_getElem hnlt] at hs; cases hs
+            exact absurd hc hlast
+        obtain ⟨i, s, hi, hs, hc, hnext⟩ := ih (by omega) hex'
+        refine ⟨i, s, by omega, hs, hc, ?_⟩
+        intro t ht hlt'
+        rcases Nat.lt_or_ge (i + 1) n with h | h
+        · exact hnext t ht h
+        · have : i + 1 = n := by omega
+          rw [this, List.getElem?_eq_getElem hnlt] at ht; cases ht
+          omega
+  obtain ⟨i0, s0, hs0, hc0⟩ := h0
+  have hi0 : i0 < S.length := by
+    rcases Nat.lt_or_ge i0 S.length with h | h
+    · exact h
+    · rw [List.getElem?_eq_none h] at hs0; cases hs0
+  obtain ⟨i, s, hi, hs, hc, hnext⟩ := key S.length (Nat.le_refl _) ⟨i0, s0, hi0, hs0, hc0⟩
+  refine ⟨i, s, hs, hc, ?_⟩
+  intro t ht
+  apply hnext t ht
+  rcases Nat.lt_or_ge (i + 1) S.length with h | h
+  · exact h
+  · rw [List.getElem?_eq_none h] at ht; cases ht
+
+end last
+
 end Ft
